@@ -779,3 +779,35 @@ package helper
 //@ ensures[C18] wmaW(b, lo, n, P) == lam * wmaW(a, lo, n, P)
 //@ induction n
 //@ use wma_step_scale(lam, wmaW(a, lo, n - 1, P), a[lo + n - 1], n, P)
+//@ lemma ratio_scale(lam real, x real, y real)
+//@ requires[C18] lam != 0 && y != 0
+//@ ensures[C18] (lam * x) / (lam * y) == x / y
+// scaling of the shared formula streams (b is a multiplied by lam on the positions read)
+//@ lemma smaS_scale(a stream, b stream, lam real, P int, k int)
+//@ requires[C18] P >= 1 && k >= 0 && (forall j :: 0 <= j && j < k + P ==> b[j] == lam * a[j])
+//@ ensures[C18] smaS(b, P)[k] == lam * smaS(a, P)[k] && winS(b, P)[k] == lam * winS(a, P)[k]
+//@ use psum_scale(a, b, lam, k + P)
+//@ use psum_scale(a, b, lam, k)
+//@ use div_scale(lam, psum(a, k + P) - psum(a, k), P)
+//@ lemma emaSt_scale(a stream, b stream, lam real, P int, m real, k int)
+//@ requires[C18] P >= 1 && k >= 0 && (forall j :: 0 <= j && j < k + P ==> b[j] == lam * a[j])
+//@ ensures[C18] emaSt(b, P, m)[k] == lam * emaSt(a, P, m)[k]
+//@ use ema_scale(a, b, lam, P, m, k)
+//@ lemma mul_lin(lam real, x real, y real)
+//@ ensures[C18] lam * (x - y) == lam * x - lam * y && lam * (x + y) == lam * x + lam * y
+//@ lemma mul_assoc(lam real, x real, y real)
+//@ ensures[C18] (lam * x) * y == lam * (x * y) && x * (lam * y) == lam * (x * y)
+//@ lemma div_scale_r(lam real, x real, y real)
+//@ requires[C18] y != 0
+//@ ensures[C18] (lam * x) / y == lam * (x / y)
+//@ lemma subS_scale(a stream, b stream, a2 stream, b2 stream, lam real, j int)
+//@ requires[C18] a2[j] == lam * a[j] && b2[j] == lam * b[j]
+//@ ensures[C18] subS(a2, b2)[j] == lam * subS(a, b)[j]
+//@ lemma abs_scale(lam real, x real)
+//@ requires[C18] lam > 0
+//@ ensures[C18] abs(lam * x) == lam * abs(x)
+//@ lemma smaS_cong(a stream, b stream, P int, k int)
+//@ requires[C18] P >= 1 && k >= 0 && (forall j :: 0 <= j && j < k + P ==> a[j] == b[j])
+//@ ensures[C18] smaS(a, P)[k] == smaS(b, P)[k]
+//@ use psum_cong(a, b, k + P)
+//@ use psum_cong(a, b, k)
